@@ -2,6 +2,9 @@
 //! added, with the data type found at every data-operand address.
 //!   T <tt> <tt> ...        token-type indices (declaration order of TokenType)
 //!   S <cp>,<cp>,...        source text as hex code points ("-" = empty)
+//!   A <cp>,..;<cp>,..      two source texts: the first is built into the data object before the
+//!                          second; the report is about the second build only (oracle gets
+//!                          init=<instruction len>,<jump len>,<last instruction> before it)
 //! Output: <case>\t<result>\t<oracle>
 //!   result:  L=<ok|ERR|PANIC> P=<ERRn|PANIC|OK:root:[def.sec.parent.left.right.tok;...]>
 //!            B=<ERRn|PANIC|OK:entry:I[..]:J[..]:M[..]> K=<K[type index per data operand]> (SimpleGarnishData)
@@ -12,11 +15,27 @@ mod codekit;
 use codekit::*;
 use garnish_verif_harness::*;
 
-fn build_and_show<D: Kit>(p: &Parsed) -> (String, String) {
+fn build_and_show<D: Kit>(prefix: &Option<Parsed>, p: &Parsed) -> (String, String, String) {
     let mut data = D::fresh();
+    if let Some(pre) = prefix {
+        if build_into(&mut data, pre).is_err() {
+            return ("PREFIXFAIL".to_string(), "-".to_string(), "-".to_string());
+        }
+    }
+    let il = data.get_instruction_len();
+    let jl = data.get_jump_table_len();
+    let last = if il == 0 {
+        "none".to_string()
+    } else {
+        match data.get_instruction(il - 1) {
+            Some((i, d)) => format!("{}{}", i as usize, show_operand(&data, i, d)),
+            None => "none".to_string(),
+        }
+    };
+    let init = format!("{},{},{}", il, jl, last);
     match build_into(&mut data, p) {
-        Err(c) => (c, "-".to_string()),
-        Ok(b) => (show_built(&data, &b), show_kinds(&data, b.instr_from, b.instr_to)),
+        Err(c) => (c, "-".to_string(), init),
+        Ok(b) => (show_built(&data, &b), show_kinds(&data, b.instr_from, b.instr_to), init),
     }
 }
 
@@ -24,6 +43,21 @@ fn main() {
     supervised(3000, |line| {
         let (kind, rest) = line.split_at(1);
         let rest = rest.trim_start();
+        let (kind, rest, prefix) = if kind == "A" {
+            let mut it = rest.splitn(2, ';');
+            let pre = it.next().unwrap_or("-");
+            let main = it.next().unwrap_or("-");
+            let prefix = match tokens_of("S", pre) {
+                Lexed::Tokens(t, _) => parse_tokens(&t).ok(),
+                Lexed::Fail(_) => None,
+            };
+            if prefix.is_none() {
+                return format!("{}\tBADPREFIX\t-", line);
+            }
+            ("S", main, prefix)
+        } else {
+            (kind, rest, None)
+        };
         match tokens_of(kind, rest) {
             Lexed::Fail(c) => {
                 if c == "BADCASE" {
@@ -33,23 +67,25 @@ fn main() {
                 }
             }
             Lexed::Tokens(tokens, idx) => {
+                let mut init_field = String::new();
                 let res = match parse_tokens(&tokens) {
                     Err(c) => format!("P={} B=- K=- BB=same BK=same", c),
                     Ok(p) => {
-                        let (b, k) = build_and_show::<Simple>(&p);
-                        let (bb, bk) = build_and_show::<Basic>(&p);
+                        let (b, k, init) = build_and_show::<Simple>(&prefix, &p);
+                        let (bb, bk, initb) = build_and_show::<Basic>(&prefix, &p);
+                        init_field = if prefix.is_some() { format!(" init={}", init) } else { String::new() };
                         format!(
                             "P=OK:{}:[{}] B={} K={} BB={} BK={}",
                             p.root,
                             show_nodes(&p.nodes),
                             b,
                             k,
-                            if bb == b { "same".to_string() } else { bb },
+                            if bb == b && initb == init { "same".to_string() } else { format!("{}@{}", bb, initb) },
                             if bk == k { "same".to_string() } else { bk }
                         )
                     }
                 };
-                format!("{}\tL=ok {}\t{}", line, res, toks_field(&idx))
+                format!("{}\tL=ok {}\t{}{}", line, res, toks_field(&idx), init_field)
             }
         }
     });
